@@ -1,12 +1,10 @@
 //go:build verif
 
-package v120
+package cfevesting
 
 // Contracts for the verification framework in /verif (comment-only file; compiled
 // only with -tags verif, where it contributes nothing but these comments).
 
 //@ // ---- declared effects (checked per call instruction by the effect checker; anything not listed is effect-free) ----
-//@ effects CreateUpgradeHandler auth.setaccount trace.write
-//@ effects UpdateVestingAccountTraces trace.write
-//@ effects ModifyVestingAccountsState auth.setaccount
-//@ effects upgradeVestingAccounnt auth.setaccount
+//@ effects InitGenesis trace.write
+//@ effects AppModule.InitGenesis trace.write
